@@ -382,7 +382,7 @@ PROP_FOCUS = {
     "C04": ("upstream_area", "accuflux", "area", "ucat", "hand_floodplains"),
     "C05": ("basins", "basin_outlets", "basin_bounds", "interbasin_mask", "inflow_outflow_idxs"),
     "C08": ("stream_order", "main_upstream", "idxs_us_main", "upstream_area", "subbasins_streamorder", "streams",
-            "moving_average", "subbasins_area"),
+            "moving_average", "subbasins_area", "subbasins_pfafstetter"),
     "C09": ("upstream_area", "idxs_us_main"), "C10": ("upstream_area", "idxs_us_main", "distnc", "hand_floodplains", "subgrid_riv", "ucat"),
     "C11": ("path", "snap", "idxs_us_main", "distnc"),
     "C14": ("moving_average", "moving_median", "fillnodata", "stream_distance", "hand_floodplains", "smooth_rivlen",
